@@ -121,6 +121,17 @@ func New(t *rapid.T, opt Options) *Machine {
 			t.Fatalf("LoadWallet: %v", err)
 		}
 		m.pendExp[h.Name] = map[string]pend{}
+		// every other wallet also trusts the other mints from the start (MintSwap needs two trusted mints)
+		if i%2 == 0 {
+			for _, mw := range e.Mints {
+				if u := wenv.URL(mw); u != def {
+					e.Cur = h.Name
+					if _, err := h.W.AddMint(u); err != nil {
+						t.Fatalf("AddMint: %v", err)
+					}
+				}
+			}
+		}
 	}
 	names := make([]string, 0, len(opt.Weights))
 	for n := range opt.Weights {
